@@ -92,6 +92,8 @@ def _all_paths_store(ck, rid, fn, cell, label):
 
 
 def run(ck, m):
+    from rules.common import rule_memo_safety
+    rule_memo_safety(ck, m, "MEMO", "C20")          # first: a memoised helper also hides the code it wraps from the rules below
     base = m.get(CM, "BaseImage")
     forms = [fn for fn in m.variants(CM, "BaseImage.set_render_method")]
     ck.need(len(forms) == 2, "expected the class and instance forms of BaseImage.set_render_method")
@@ -239,8 +241,16 @@ def run(ck, m):
     ck.ob("R6", inst_form, a == b and len(a) >= 2, f"the two forms validate differently: class form {a} vs instance form {b}", stmt="set_render_method: sibling validation")
     ck.ob("R6", cls_form, any("<C>._render_methods" in y for x in a for y in x), "validation must be against the receiver class's _render_methods", stmt="set_render_method: validates against _render_methods")
 
-    from rules.common import rule_memo_safety
-    rule_memo_safety(ck, m, "MEMO", "C20")
+    for rel_, q_, fn_ in m.functions():
+        if not rel_.startswith("image/") or fn_.name in ("_check_style_format_spec",):
+            continue
+        for c in body_walk(fn_):
+            setd = isinstance(c, ast.Call) and isinstance(c.func, ast.Attribute) and c.func.attr in ("setdefault", "update") and c.args and isinstance(c.args[0], ast.Constant) and c.args[0].value == "method"
+            sub = isinstance(c, ast.Subscript) and isinstance(c.ctx, ast.Store) and isinstance(c.slice, ast.Constant) and c.slice.value == "method"
+            kwm = isinstance(c, ast.Call) and c.func is not None and any(k.arg == "method" and not (isinstance(k.value, ast.Name) and k.value.id == "method") for k in c.keywords) and "_render_image" in norm(c.func)
+            if setd or sub or kwm:
+                ck.ob("R3", enclosing_stmt(c), False, f"{q_} chooses a render method itself (`{short(c, 50)}`): the method used must be the per-call override or else the effective (instance -> class -> default) one",
+                      stmt=f"{q_}: no programmatic method override")
 
 
 MUTANTS = [
